@@ -127,8 +127,11 @@ pub fn huffman_invalid_reason(payload: &[u8]) -> &'static str {
     match huffman::classify(payload) {
         huffman::Validity::Valid(_) => "classifier-disagrees",
         huffman::Validity::OverlongPadding(_) => "padding-longer-than-7-bits",
-        huffman::Validity::Eos { at_end: true } => "EOS-symbol-at-end",
-        huffman::Validity::Eos { at_end: false } => "EOS-symbol-inside",
+        // the EOS symbol closing the string (fewer than 8 one-bits behind it) and the EOS symbol followed by
+        // a byte or more of ones are different inputs: one signature each
+        huffman::Validity::Eos { at_end: true, trailing_bits } if trailing_bits < 8 => "EOS-symbol-at-end",
+        huffman::Validity::Eos { at_end: true, .. } => "EOS-symbol-then-a-byte-or-more-of-ones",
+        huffman::Validity::Eos { at_end: false, .. } => "EOS-symbol-inside",
         huffman::Validity::BadPadding => "padding-not-EOS-prefix",
     }
 }
